@@ -4,6 +4,7 @@ func init() {
 	registerProperty(&PropertyConfig{
 		ID:      "C14",
 		Explain: "frame and page-permission contracts on the text writers: a write changes exactly [addr,addr+len) of ghost textmem, every covered page ends R+X, no other page's protection changes, PROT_EXEC is never dropped (call-site obligation on mprotect), too-short targets are refused",
+		Aux:     runFuncSizeAux,
 		Trusted: []string{"page size 4096", "mprotect(RWX) on text succeeds (otherwise the unclaimed mwrite_prot.go fallback runs)", "RawAccess (unsafe SliceHeader idiom) is the window of raw memory", "GetFuncSize's scanned extent vs. real linker layout: NOT decided here (fact about linker output)"},
 	})
 }
